@@ -10,7 +10,3 @@ import "github.com/go-netty/go-netty/utils/pool/internal/pmath"
 func VerifCeil(n int) int    { return pmath.CeilToPowerOfTwo(n) }
 func VerifFloor(n int) int   { return pmath.FloorToPowerOfTwo(n) }
 func VerifIsPow2(n int) bool { return pmath.IsPowerOfTwo(n) }
-
-// VerifGeometry exposes (number of shards, step size) and the class size of n.
-func (p *Pool[T]) VerifGeometry() (shards, step int) { return len(p.pool), p.stepSize }
-func (p *Pool[T]) VerifClass(n int) int              { return p.size(n) }
